@@ -70,14 +70,19 @@ def make_baseline(rng, m, kind, scale):
     return rng.uniform(0.0, 0.25, m) * scale
 
 
-def make_bounds(rng, n, lbkind, ubkind):
+def make_bounds(rng, n, lbkind, ubkind, ub_wide=False):
     if ubkind == "inf":
         ub = None if rng.integers(2) else np.full(n, np.inf)
         ubv = np.full(n, np.inf)
+    elif ub_wide:
+        # the whole range of the regime: upper bounds log-uniform in [0.05, 10] (small intensity units)
+        top = float(np.exp(rng.uniform(np.log(0.06), np.log(10))))
+        ubv = top * rng.uniform(0.85, 1.0, n)
+        ub = ubv
     else:
         ubv = rng.uniform(0.5, 10, n) if rng.integers(4) else np.full(n, float(rng.uniform(0.5, 10)))
         ub = ubv
-    if lbkind == "zero":
+    if lbkind == "zero" or (ub_wide and ubkind != "inf" and np.min(ubv) < 0.2):
         lb = None if (rng.integers(2) and ubkind == "inf") else np.zeros(n)
         lbv = np.zeros(n)
     else:
@@ -122,7 +127,7 @@ def regime_report(A, lb, ub, K, baseline, B=None):
 
 
 def make_system(rng, m=None, n=None, kkind=None, basekind=None, lbkind=None, ubkind="finite",
-                nonneg=True, mrange=(1, 5), nrange=(1, 8), under=None, max_tries=200):
+                nonneg=True, mrange=(1, 5), nrange=(1, 8), under=None, max_tries=200, ub_wide=False, sparse=False):
     """A linear system in the well-scaled regime (by construction + rejection).
     under: None (any), True (n>m), False (n<=m)."""
     for _ in range(max_tries):
@@ -145,9 +150,17 @@ def make_system(rng, m=None, n=None, kkind=None, basekind=None, lbkind=None, ubk
         wid = rng.uniform(0.15, 0.6)
         A = np.exp(-0.5 * ((pr[:, None] - ps[None, :]) / wid) ** 2) + rng.uniform(0.01, 0.1, (m_, n_))
         A *= rng.uniform(0.6, 1.4, (m_, n_))
+        if sparse and m_ >= 2:
+            # exact zeros: some sources do not excite some receptors at all (every row and column keeps an entry)
+            Z0 = rng.random((m_, n_)) < 0.3
+            Z0[rng.integers(m_, size=n_), np.arange(n_)] = False
+            Z0[np.arange(m_), rng.integers(n_, size=m_)] = False
+            A = np.where(Z0, 0.0, A)
         if not nonneg:
             A *= rng.choice([-1.0, 1.0], (m_, n_), p=[0.2, 0.8])
-        lb, ub, lbv, ubv = make_bounds(rng, n_, lk, ubkind)
+        lb, ub, lbv, ubv = make_bounds(rng, n_, lk, ubkind, ub_wide)
+        if ub_wide and ubkind != 'inf' and np.min(ubv) < 0.2:
+            lk = 'zero'
         K = make_K(rng, m_, kk)
         Mt0, _ = oracles.transform(A, K, None)
         rng_ = np.where(np.isfinite(ubv), ubv - lbv, 1.0)
